@@ -966,7 +966,9 @@ class ExcelCompiler:
         """
 
         iterations = iterations or self.cycles['iterations'] or 10000
-        tolerance = tolerance or self.cycles['tolerance'] or 0.01
+        if tolerance is None:
+            # a tolerance of 0 is a tolerance: stop when nothing changes
+            tolerance = self.cycles['tolerance'] or 0.01
 
         if list_like(address) and not isinstance(address, (tuple, list)):
             # an iterator can be walked only once, every iteration needs it
